@@ -345,7 +345,7 @@ func c09Run(r *core.Run) {
 	r.SetBudget(70 * time.Second)
 	if r.Thorough() {
 		depth = 4
-		r.SetBudget(25 * time.Minute)
+		r.SetBudget(40 * time.Minute)
 	}
 	r.Rule = fmt.Sprintf("engine B: BFS over histories of Reg(route,api) and Headers(i,set) on a fresh Flame (state = shortest history, successor = replay + one op; key = registrations in order with their current constraint sets); after every transition the full probe set (%d methods x %d paths x %d request header sets, each served three times; for histories of one and three operations also interleaved with the operations) is served", len(c09Methods), len(c09Paths), len(c09ReqHdrs)) + " and compared with the documented priority restricted to eligible registrations; a state reached again by another history must answer the probe set identically; non-trivial = probe served while at least one registration carries constraints"
 	r.Bounds["depth"] = depth
